@@ -35,6 +35,18 @@ def check(ctx):
     r = ctx.tlc("GstuffEncMC", "GstuffEncMCthorough.cfg" if ctx.thorough else "GstuffEncMC.cfg", workers=16, timeout=1500)
     if not r.ok:
         ctx.model_violation(r, "Encode/receiver round trip at specification level")
+    # behaviours out of TLC: payloads whose frame reaches the bound 2n+4 (found by TLC, GstuffWorst.tla)
+    rw = ctx.tlc("GstuffWorst", "GstuffWorstthorough.cfg" if ctx.thorough else "GstuffWorst.cfg", workers=8, timeout=900, coverage=False)
+    if not rw.ok:
+        ctx.model_violation(rw, "frame length bound 2n+4")
+    import re
+    worst = {"default": [], "v0": []}
+    for m in re.finditer(r'<<"WORST", "(\w+)", (<<[^>]*>>)>>', rw.out):
+        worst[m.group(1)].append(core.parse_tla(m.group(2)))
+    worst["legacy"] = worst["v0"]
+    ctx.extra["worst_case_payloads_from_tlc"] = sum(len(v) for v in worst.values())
+    if not worst["default"] or not worst["v0"]:
+        raise core.InfraError("TLC produced no worst-case payloads")
     rng = ctx.rng
     lines = []
     for name in gc.NAMES:
@@ -54,6 +66,12 @@ def check(ctx):
                 for part in partitions(rng, p, True):
                     lines.append("Enc iov %s" % part)
                     lines.append("Enc vec %s" % part)
+        for p in worst[name]:
+            if name == "legacy":
+                lines.append("Enc plain %s" % gc.fmt(p)); continue
+            lines += ["Enc plain %s" % gc.fmt(p), "Enc vecbuf %s" % gc.fmt(p)]
+            for part in partitions(rng, p, False):
+                lines += ["Enc iov %s" % part, "Enc vec %s" % part]
         # random payloads of all lengths
         for i in range(3000 if ctx.thorough else 300):
             p = gc.rand_payload(rng, name, rng.choice([0, 1, 2, 3, 7, 8, 31, 64, 300]))
